@@ -44,7 +44,15 @@ var buildAssume = append([]string{
 const buildRule = "seeded universes (1-3 packages, 2-7 targets: explicit/glob inputs with excludes, file/dir/bin outputs, dependencies direct or through 1-2 aliases, tags, fingerprints, platforms, tests, checks, failing targets) and histories of 2-6 operations (edits incl. bytes moved across adjacent inputs, alias retargeting, revert; builds with random patterns/filters/num_workers/hash algorithm/enable_cache/fail_fast; taint; workspace mutations of output paths), each closed by a full build and an identical rebuild; every invocation is the real command body run as a simulated process under a seeded schedule. " +
 	"Oracle: reference model gives MUST / MUST-NOT / MAY execute per target and the bytes of a clean build. non-trivial = >=2 builds and >=1 context switch; distinct = distinct (history shape hash, schedule trace hash)."
 
+const faultRule = " Fault runs (mode=faults): per-run budget of 1-3 faults drawn from a per-run subset of {fs-error-read, fs-error-write (ENOSPC), fs-error-stat, short-write, read-error, crash at the k-th file-system operation of a build (incl. inside a copy: a strict prefix is written), SIGINT at a drawn scheduler step, removal of a cache entry between builds}; injected only on cache paths, biased towards blob reads / renames in half of the runs. Oracle relaxed narrowly: a faulted invocation may fail or re-execute, never hang, crash, report success with wrong bytes or leave a corrupt cache."
+
 var plans = map[string]Plan{
+	"C07": {Jobs: []Job{{World: "wbuild", Params: "mode=faults,focus=crash,max_targets=5", Share: 0.8}, {World: "wbuild", Params: "max_targets=5", Share: 0.2}}, Level: "fault_enumeration",
+		Rule: buildRule + faultRule + " C07: after EVERY invocation (also killed ones) an offline audit of the cache directory: every cas/<d> (not tmp-*) hashes to d, every target/<k> decodes and every blob it references (through trees) is present; the follow-up builds must satisfy C01.",
+		Real: realBuild, Stub: stubBuild, Assume: append([]string{"crash model is process death with the page cache intact (kill -9): every completed file-system operation survives; loss of un-fsynced data on power failure is outside the statement and not injected", "a crash also kills the running target shells"}, buildAssume...), QuickS: 45, ThoroughS: 1200},
+	"C18": {Jobs: []Job{{World: "wbuild", Params: "mode=faults,focus=signal,max_targets=5", Share: 1}}, Level: "fault_enumeration",
+		Rule: buildRule + faultRule + " C18: SIGINT delivered through the real SetupCommand handler at a drawn step of loading / execution / output writing / shutdown: no command is forked after the handler task has finished, the process ends within 10 s simulated, interrupted targets must execute again in the next build, which must acquire the (stale) lock and satisfy C01.",
+		Real: realBuild, Stub: append([]string{"that a real sh and its children die on kill (the simulated command dies at once)"}, stubBuild...), Assume: buildAssume, QuickS: 45, ThoroughS: 1200},
 	"C01": {Jobs: []Job{{World: "wbuild", Params: "max_targets=6", Share: 1}}, Level: "exploration", Rule: buildRule + " C01: after every build that exits 0 every declared output of every selected target equals the model's clean build; a target that must execute for lack of a result for its current state did execute.",
 		Real: realBuild, Stub: stubBuild, Assume: buildAssume, QuickS: 45, ThoroughS: 1200},
 	"C02": {Jobs: []Job{{World: "wbuild", Params: "max_targets=6", Share: 1}}, Level: "exploration", Rule: buildRule + " C02: the set of commands executed by each build is compared with MUST-NOT (cached result for the current state, nothing forcing execution), incl. no-op rebuild, early cut-off (projected commands) and damaged output paths.",
@@ -65,9 +73,9 @@ var plans = map[string]Plan{
 		Real: append(realDag, realBuild...), Stub: append(stubDag, stubBuild...), Assume: buildAssume, QuickS: 50, ThoroughS: 1200,
 	},
 	"C04": {
-		Jobs:  []Job{{World: "wdag", Params: "max_n=400", Share: 0.5}, {World: "wbuild", Params: "max_targets=6", Share: 0.5}},
+		Jobs:  []Job{{World: "wdag", Params: "max_n=400", Share: 0.4}, {World: "wbuild", Params: "max_targets=6", Share: 0.2}, {World: "wbuild", Params: "mode=faults,max_targets=5", Share: 0.4}},
 		Level: "exploration",
-		Rule: "same workloads as C03 plus external cancellation; violation classes: hang (no runnable task and no pending timer for 2h simulated, or step budget), panic in grog code, concurrent map access (write-window monitor = the interleavings on which the Go runtime throws), unresolved / inconsistent completion map on return. " +
+		Rule: "W-build fault runs: cache read faults at every depth of an output restore (target result, tree blob, k-th file blob), see C07 for the fault catalogue. same workloads as C03 plus external cancellation; violation classes: hang (no runnable task and no pending timer for 2h simulated, or step budget), panic in grog code, concurrent map access (write-window monitor = the interleavings on which the Go runtime throws), unresolved / inconsistent completion map on return. " +
 			"non-trivial and distinct as for C03",
 		Real: append(realDag, realBuild...), Stub: append(stubDag, stubBuild...), Assume: buildAssume, QuickS: 50, ThoroughS: 1200,
 	},
